@@ -162,7 +162,7 @@ class GroupMachine(Machine):
                 elif u < 0.75:
                     ops.append({"op": "byname", "name": "obs%d" % rng.randrange(7)})
                 elif u < 0.85:
-                    ops.append({"op": "addwrong", "how": rng.choice(["add", "setobs"])})
+                    ops.append({"op": "addwrong", "how": rng.choice(["add", "setobs"]), "pos": rng.randrange(6)})
                 elif u < 0.92:
                     ops.append({"op": "rename", "i": rng.randrange(6), "name": "obs%d" % rng.randrange(7)})
                 else:
@@ -188,8 +188,13 @@ class GroupMachine(Machine):
             elif u < 0.66:
                 ops.append({"op": "names", "kind": rng.choice(["list", "tuple", "short", "long", "str"]),
                             "values": ["obs%d" % rng.randrange(7) for _ in range(8)]})
-            elif u < 0.70:
+            elif u < 0.69:
                 ops.append({"op": "rename", "i": rng.randrange(6), "name": "obs%d" % rng.randrange(7)})
+            elif u < 0.70:
+                # somebody else re-parents a member (another node adopts it); re-assigning the membership must bring it back
+                ops.append({"op": "steal", "i": rng.randrange(6), "to": rng.choice(["world", "none"])})
+                ops.append({"op": "setobs", "idx": [rng.randrange(6) for _ in range(rng.randint(1, 5))], "as": rng.choice(["list", "tuple"]),
+                            "include_members": True})
             elif u < 0.76:
                 ops.append({"op": "index", "i": rng.randint(-7, 7)})
             elif u < 0.80:
@@ -197,7 +202,7 @@ class GroupMachine(Machine):
             elif u < 0.86:
                 ops.append({"op": "byname", "name": "obs%d" % rng.randrange(7)})
             elif u < 0.90:
-                ops.append({"op": "addwrong", "how": rng.choice(["add", "setobs", "setobs-str"])})
+                ops.append({"op": "addwrong", "how": rng.choice(["add", "setobs", "setobs-str"]), "pos": rng.randrange(6)})
             elif u < 0.93:
                 ops.append({"op": "connect", "classes": [rng.choice(["Power", "Radiance", "SpectralPower", "SpectralRadiance"])
                                                          for _ in range(rng.randint(1, 3))]})
@@ -272,6 +277,7 @@ class GroupMachine(Machine):
         c.members = list(init)                 # model: ordered pool indices
         c.mutations = 0
         c.last_list = None
+        c.stolen = set()
         c.lastkind = "-"
         # model of member records is the observers' own state read at start (then updated by broadcast ops)
         c.model = [self._snapshot_member(c, o) for o in c.pool]
@@ -352,6 +358,8 @@ class GroupMachine(Machine):
             raise Violation("membership", c.gname, "len(group) = %d, model %d" % (len(g), len(want)))
         kids = list(g.children)
         for o in want:
+            if any(o is c.pool[i] for i in c.stolen):
+                continue      # re-parented by somebody else since it was last assigned: not the group's doing
             if o.parent is not g or not any(k is o for k in kids):
                 raise Violation("parent", c.gname, "after %s: member %r has parent %r" % (opname, o.name, o.parent))
         # every pool observer's own state must equal the model record (catches cross-talk and partial assignment)
@@ -411,10 +419,11 @@ class GroupMachine(Machine):
             except Exception as e:
                 raise Violation("add-refused", c.gname, "adding an observer of the group's type raised %s: %s" % (type(e).__name__, e))
             c.members.append(i)
+            c.stolen.discard(i)
             c.mutations += 1
         elif k == "setobs":
             idx = []
-            for i in op["idx"]:
+            for i in (list(c.members) if op.get("include_members") else []) + list(op["idx"]):
                 if i not in idx:
                     idx.append(i)
             val = [c.pool[i] for i in idx]
@@ -427,6 +436,7 @@ class GroupMachine(Machine):
                     g.observers = val
                 c.members = idx
                 c.mutations += 1
+                c.stolen -= set(idx)          # a (re-)assigned member must be parented to the group again
                 c.last_list = val if isinstance(val, list) else None
             except TypeError as e:
                 if c.is_cam and op["as"] == "tuple":
@@ -436,6 +446,14 @@ class GroupMachine(Machine):
             except Exception as e:
                 raise Violation("setobs-refused", c.gname, "assigning observers raised %s: %s" % (type(e).__name__, e))
             detail = op["as"]
+        elif k == "steal":
+            i = op["i"]
+            if i not in c.members or c.is_cam:
+                return "noop"
+            c.pool[i].parent = c.world if op["to"] == "world" else None
+            c.stolen.add(i)
+            env.probe("member_reparented_elsewhere")
+            detail = op["to"]
         elif k == "caller.mutate":
             # the caller goes on editing the list object it handed to the group: membership must not follow
             lst = getattr(c, "last_list", None)
@@ -456,7 +474,8 @@ class GroupMachine(Machine):
                 if how == "add":
                     (g.add_foil_detector if c.is_cam else g.add_observer)(c.wrong)
                 elif how == "setobs":
-                    val = [c.pool[i] for i in c.members] + [c.wrong]
+                    val = [c.pool[i] for i in c.members]
+                    val.insert(op.get("pos", len(val)) % (len(val) + 1), c.wrong)     # the intruder at any position
                     if c.is_cam:
                         g.foil_detectors = val
                     else:
@@ -702,6 +721,8 @@ class GroupMachine(Machine):
 
     def _do_observe(self, c, op, env):
         g = c.group
+        if c.stolen & set(c.members):
+            return "noop"         # a member currently lives in somebody else's sub-tree: observing is the caller's problem
         pipes = {}
         for i in c.members:
             p = CountPipe()
